@@ -98,6 +98,27 @@ Section C10.
   Lemma kinds_nth ls ls' i : kinds ls' = kinds ls -> option_map kind (nth_error ls' i) = option_map kind (nth_error ls i).
   Proof. intros H. unfold kinds in H. rewrite <- !nth_error_map, H. reflexivity. Qed.
 
+  Lemma mapM_in A B (f : A -> res B) l r x :
+    mapM f l = Ok r -> In x l -> exists y, f x = Ok y /\ In y r.
+  Proof.
+    revert r; induction l as [|a l IH]; intros r H Hx; [destruct Hx|]. cbn [mapM] in H.
+    destruct (f a) as [y|] eqn:Ea; [|discriminate]. cbn [bind] in H.
+    destruct (mapM f l) as [ys|]; [|discriminate]. cbn [bind] in H. injection H as <-.
+    destruct Hx as [<-|Hx].
+    - exists y. split; [exact Ea|left; reflexivity].
+    - destruct (IH ys eq_refl Hx) as (z & Ez & Hz). exists z. split; [exact Ez|right; exact Hz].
+  Qed.
+
+  Lemma no_params_members (members : list blayer) b :
+    length (flat_map (fun b => match blayer_weights b with Some p => [p] | None => [] end) members) = 0 ->
+    In b members -> blayer_weights b = None.
+  Proof.
+    induction members as [|m ms IH]; intros H Hb; [destruct Hb|]. cbn [flat_map] in H.
+    rewrite app_length in H. destruct Hb as [<-|Hb].
+    - destruct (blayer_weights m); [cbn [length] in H; lia|reflexivity].
+    - apply IH; [lia|exact Hb].
+  Qed.
+
   Lemma couple_one_spec acc ls c ls' :
     couple_one acc ls c = Ok ls' ->
     kinds ls' = kinds ls /\
@@ -105,7 +126,16 @@ Section C10.
     (homogeneous ls c -> tied_couple ls' c).
   Proof.
     unfold couple_one. intros H.
-    destruct (mapM (nth_res ls) c) as [members|]; [|discriminate]. cbn [bind] in H.
+    destruct (mapM (nth_res ls) c) as [members|] eqn:Em; [|discriminate]. cbn [bind] in H.
+    match type of H with (if ?c then _ else _) = _ => destruct c eqn:Eps end.
+    { (* a couple of parameter-free layers: nothing is written, the copies hold no parameters *)
+      injection H as <-. split; [reflexivity|]. split; [reflexivity|]. intros _ i j Hi Hj.
+      apply Nat.eqb_eq in Eps.
+      destruct (mapM_in _ _ i Em Hi) as (li & Eli & Hli). destruct (mapM_in _ _ j Em Hj) as (lj & Elj & Hlj).
+      unfold nth_res in Eli, Elj.
+      destruct (nth_error ls i) as [li'|]; [|discriminate]. destruct (nth_error ls j) as [lj'|]; [|discriminate].
+      injection Eli as ->. injection Elj as ->. cbn [option_map].
+      rewrite (no_params_members _ _ Eps Hli), (no_params_members _ _ Eps Hlj). reflexivity. }
     destruct (couple_lists _ _ _ _) as [w|]; [|discriminate]. cbn [bind] in H.
     match type of H with (do bias <- ?B; _) = _ => destruct B as [bias|]; [|discriminate] end.
     cbn [bind] in H.
